@@ -155,7 +155,7 @@ fn cases(thorough: bool) -> Vec<Case> {
         };
         let pad = vec![0u8; 600];
         // end points
-        for ends in [vec![5u16, 3], vec![3, 3], vec![0xFFFF], vec![0xFFFE], vec![0, 0xFFFF], vec![10, 5, 0xFFFF], vec![0x7FFF, 0x8000], vec![1000]] {
+        for ends in [vec![5u16, 3], vec![3, 3], vec![0xFFFF], vec![0xFFFE], vec![0, 0xFFFF], vec![10, 5, 0xFFFF], vec![0x7FFF, 0x8000], vec![1000], vec![0xFFFF, 3], vec![0xFFFE, 0], vec![25536, 3], vec![3, 0xFFFF, 5], vec![0x8000, 0x7FFF, 9]] {
             add(format!("ends={ends:?} zero flags"), simple(&ends, 0, &[], &pad));
             add(format!("ends={ends:?} no data"), simple(&ends, 0, &[], &[]));
         }
@@ -201,6 +201,22 @@ fn cases(thorough: bool) -> Vec<Case> {
             r.extend_from_slice(&[0, 0, 0, 0, 1, 1, 0, 0]);
             add(format!("numberOfContours={nc} with 8 bytes"), r);
         }
+        // every hostile simple glyph again as the NON-first component of a composite, behind a first
+        // component of 1, 4 and 40000 points (contour end points are shifted by the points loaded so far)
+        let n_simple = recs.len() as u16;
+        let firsts: Vec<u16> = [big(1, 1), big(4, 2), big(40000, 3)]
+            .into_iter()
+            .map(|r| {
+                recs.push(r);
+                recs.len() as u16 - 1
+            })
+            .collect();
+        for g in 1..n_simple {
+            for f in &firsts {
+                recs.push(composite(&[xy(*f), xy(g)], &[]));
+            }
+        }
+        what.push(format!("each of the {} simple glyphs as second component behind 1 / 4 / 40000 points", n_simple - 1));
         let gids = (1..recs.len() as u32).collect();
         out.push(Case { family: "hostile-simple", what: what.join(" | "), records: recs, gids });
     }
